@@ -52,11 +52,13 @@ func InitRandom(rg *VP8Random, dithering float32) {
 // RandomBits2 returns a centered pseudo-random number with numBits amplitude,
 // scaled by the given amp. Matches C VP8RandomBits2.
 func RandomBits2(rg *VP8Random, numBits, amp int) int {
-	diff := int(rg.tab[rg.index1]) - int(rg.tab[rg.index2])
-	if diff < 0 {
-		diff += 1 << 31
+	// 31-bit modular difference, computed in 64 bits so that the package
+	// also compiles (and behaves identically) where int is 32 bits wide.
+	d64 := int64(rg.tab[rg.index1]) - int64(rg.tab[rg.index2])
+	if d64 < 0 {
+		d64 += 1 << 31
 	}
-	rg.tab[rg.index1] = uint32(diff)
+	rg.tab[rg.index1] = uint32(d64)
 	rg.index1++
 	if rg.index1 == vp8RandomTableSize {
 		rg.index1 = 0
@@ -66,7 +68,7 @@ func RandomBits2(rg *VP8Random, numBits, amp int) int {
 		rg.index2 = 0
 	}
 	// sign-extend, 0-center
-	diff = int(int32(uint32(diff)<<1)) >> (32 - numBits)
+	diff := int(int32(uint32(d64)<<1)) >> (32 - numBits)
 	diff = (diff * amp) >> vp8RandomDitherFix // restrict range
 	diff += 1 << (numBits - 1)               // shift back to 0.5-center
 	return diff
